@@ -19,6 +19,19 @@ def obligations(tier):
     obs += [o for o in c13.heap_obligations(tier, True, "allocfail-") if o["name"].endswith("-n0-3") and "ptrheap-create" in o["name"]]
     obs.append(dict(name="allocfail-asprintf", harness="asp.c", entry="h_asprintf", unwind=12, mmf=True, flags=["--memory-leak-check"], backends=["cadical"], timeout=1800 if tier == "thorough" else 280,
                     claim="util/asprintf.c: measure, allocate exactly len+1, format; formatting or allocation failure => -1 and nothing leaked", bounds="formatted length 0..7", stubs=["vsnprintf -> scripted"]))
+    # buffered writer (netbuf_write.c): append steps with a failing allocator
+    to = 1800 if tier == "thorough" else 280
+    for ent, nm, defs in (("h_allocfail_write", "write-len1", ["WL=1"]), ("h_allocfail_write", "write-len4097", ["WL=4097"]), ("h_allocfail_reserve", "reserve5-consume3", ["WL=5", "CL=3"])):
+        obs.append(dict(name="allocfail-netbuf-writer-" + nm, harness="../C07/wr.c", entry=ent, defs=defs + ["LASTBIG=0"], unwind=6, mmf=True, flags=["--memory-leak-check", "--arrays-uf-always"], backends=["cadical"], timeout=to,
+                        claim="netbuf_write_%s with every allocation inside it failing independently, from every writer state (0/1 in flight x 0..2 queued): failure is reported (-1 / NULL), the pending stream and the in-flight request are untouched, nothing is sent; after netbuf_write_free nothing is leaked on either outcome" % ("write" if "write" in nm else "reserve/consume"),
+                        bounds="same queue shapes as C07", stubs=["network_write -> recording model that never refuses", "memcpy -> single-observation copy"]))
+    obs.append(dict(name="allocfail-events-timer", harness="../C05/tim.c", entry="h_timer", defs=["MMF"], unwind=8, mmf=True, flags=["--memory-leak-check"], backends=["cadical"], timeout=to,
+                    claim="events_timer_register / events_timer_min with their allocations failing independently: NULL / -1, the event record released, nothing registered in the queue, nothing leaked; the other timer operations allocate nothing and succeed", bounds="as C05 timer-source-steps", stubs=["timerqueue_* -> recording abstract queue", "monoclock_get -> arbitrary"]))
+    obs.append(dict(name="allocfail-network-connect", harness="../C06/conn.c", entry="h_connect", defs=["MMF", "NADDR=2"], unwind=6, mmf=True, flags=["--memory-leak-check"], backends=["cadical"], timeout=to,
+                    claim="network_connect with its cookie allocation failing: NULL, no callback ever, no descriptor opened, nothing registered, nothing leaked; otherwise the whole-attempt obligations of C06 hold unchanged", bounds="2 addresses", stubs=["as C06 network-connect"]))
+    for nl in (16, 28):	# namelen 0 excluded: malloc(0) may be NULL and memcpy/memcmp(NULL, ., 0) trips CBMC's precondition although nothing is accessed
+        obs.append(dict(name="allocfail-sockaddr-namelen%d" % nl, harness="../C15/sockaddr.c", entry="h_roundtrip", defs=["MMF", "NAMELEN=%d" % nl], vsrcs=["models/stub_warnp.c"], unwind=max(nl + 2, 8), mmf=True, flags=["--memory-leak-check"], backends=["cadical"], timeout=to,
+                        claim="sock_addr_serialize / sock_addr_deserialize / sock_addr_dup with every allocation failing independently: -1 / NULL and nothing leaked (a half-built address is released); successful calls still round-trip", bounds="namelen %d" % nl, stubs=["warn -> empty"]))
     extra = globals().get("more_obligations")
     if extra: obs += extra(tier)
     return obs
